@@ -295,7 +295,9 @@ class _ReturnInliner(ast.NodeTransformer):
 
     def visit_Call(self, node):
         self.generic_visit(node)
-        if self.depth > 2 or not (isinstance(node.func, ast.Attribute) and dotted(node.func.value) in ("self", "cls")):
+        is_selfcall = isinstance(node.func, ast.Attribute) and dotted(node.func.value) in ("self", "cls")
+        is_modfunc = isinstance(node.func, ast.Name) and self.func is not None and node.func.id in self.func.module.functions
+        if self.depth > 2 or not (is_selfcall or is_modfunc):
             return node
         try:
             t = self.resolver.resolve(node, self.func, self.cls)
@@ -313,7 +315,7 @@ class _ReturnInliner(ast.NodeTransformer):
         from .facts import expand_ast
 
         ret = expand_ast(body[-1].value, g)
-        params = g.params[1:] if g.params and g.params[0] in ("self", "cls") else list(g.params)
+        params = g.params[1:] if (g.cls is not None and g.params and g.params[0] in ("self", "cls")) else list(g.params)
         bind = dict(zip(params, node.args))
         bind.update({k.arg: k.value for k in node.keywords if k.arg})
         out = bind_params(ret, bind)
